@@ -680,7 +680,11 @@ def declare_channel_api(w):
                               Case("closed-now", when=lambda a, h: z3.And(z3.Not(C(h, a.self, "_executing")), z3.Not(C(h, a.self, "_closed"))), post=close_post),
                               rcase("inside-remote_exec", "OSError", lambda a, h: C(h, a.self, "_executing"),
                                     lambda a, h, h2, e: [wire(h2, C(h, a.self, "gateway")) == wire(h, C(h, a.self, "gateway")), C(h2, a.self, "_closed") == C(h, a.self, "_closed")]),
-                              rcase("cannot-send", "OSError", lambda a, h: z3.And(z3.Not(C(h, a.self, "_executing")), z3.Not(C(h, a.self, "_closed"))), lambda a, h, h2, e: []),
+                              # a close whose frame could not be sent has told the peer nothing: the channel must not count as closed (a retry, or dropping the object,
+                              # still has to announce the end of the conversation - otherwise the peer keeps the id for ever, C18)
+                              rcase("cannot-send", "OSError", lambda a, h: z3.And(z3.Not(C(h, a.self, "_executing")), z3.Not(C(h, a.self, "_closed"))),
+                                    lambda a, h, h2, e: [wire(h2, C(h, a.self, "gateway")) == wire(h, C(h, a.self, "gateway")), z3.Not(C(h2, a.self, "_closed")),
+                                                         registered(h2, fac(h, a.self), C(h, a.self, "id")) == registered(h, fac(h, a.self), C(h, a.self, "id"))]),
                               rcase("unsupported-error-object", "DumpError", lambda a, h: z3.BoolVal(False), lambda a, h, h2, e: []), _interrupt()],
                        props=["C03", "C06", "C18", "C07"]))
     c.ghost_init = GH(lambda a, h: C(h, a.self, "gateway"))
@@ -1125,6 +1129,21 @@ def declare_receiver_thread(w):
                                                                   ("has-receivepool", G(h, a.self, "_receivepool") != 0)],
                        modifies=TRMOD, cases=[Case("ended", post=tr_post), _interrupt()], props=["C04", "C02", "C11", "C07"]))
     c.ghost_init = GH(lambda a, h: a.self)
+
+    # order in the epilogue: the waiters are woken (sweep) and the execution is told to stop BEFORE the connection objects are closed - closing a buffered pipe
+    # flushes what a failed send left behind and can itself fail; whatever happens there must not keep receive()/waitclose() callers from their EOFError
+    def at_close(a, h0, call, hnow, loc=None):
+        f_ = G(h0, a.self, "_channelfactory")
+        return [("waiters-woken-and-execution-stopped-before-the-connection-is-closed",
+                 z3.Implies(call.self == G(h0, a.self, "_io"), z3.And(F(hnow, f_, "finished"), G(hnow, a.self, "$terminated_execution"))))]
+
+    # ... and the epilogue does not take the receive lock: user callbacks run under it for as long as they like (setcallback replays the backlog in the caller's
+    # thread while holding it), and the sweep and the shutdown ladder must not wait for them (C11: bounded time from end of stream)
+    def not_locked(a, h0, call, hnow, loc=None):
+        return [("epilogue-does-not-hold-the-receive-lock", z3.Not(hnow.holds(G(h0, a.self, "_receivelock"))))]
+
+    c.at_call = {"model:IO.close_read": at_close, "model:IO.close_write": at_close,
+                 f"{GB}:ChannelFactory._finished_receiving": not_locked, f"{GB}:BaseGateway._terminate_execution": not_locked}
 
     def tr_inv(L):
         g = L.inp("self")
